@@ -428,6 +428,8 @@ let small_scopes : scen list =
     { base with items = [ Target 1; Change ([ (1, 11) ], false); Change ([ (1, 21) ], false); ConnUp (11, 1) ] };
     (* a serializable change and two changes on a connected target *)
     { base with items = [ Target 1; ConnUp (11, 1); Change ([ (1, 11) ], true); Change ([ (1, 21) ], false); Change ([ (1, 31) ], false) ] };
+    (* a serializable change and two changes while the device stays away *)
+    { base with items = [ Target 1; Change ([ (1, 11) ], true); Change ([ (1, 21) ], false); Change ([ (1, 31) ], false) ] };
     (* change, rollback of it, change *)
     { base with items = [ Target 1; ConnUp (11, 1); Change ([ (1, 11) ], false); Rollback 1; Change ([ (1, 31) ], false) ] };
   ]
